@@ -14,6 +14,9 @@ From GS.Model Require Import MemCommit.
 (* C19json begin *)
 From GS.Model Require Import Json.
 (* C19json end *)
+(* helpers begin *)
+From GS.Model Require Import Helpers.
+(* helpers end *)
 Require Import Extraction.
 Require Import ExtrOcamlBasic.
 Set Extraction KeepSingleton.
@@ -34,6 +37,12 @@ Extraction "model.ml"
   base64_encode base64_decode print_dec marshal_blob_json marshal_share_json marshal_namespace_json
   unmarshal_blob_json unmarshal_share_json unmarshal_namespace_json json_in_subset
   (* C19json end *)
+  (* helpers begin: the small public helpers (Model/Helpers.v) *)
+  blob_compare blob_less sort_blobs new_v0_blob new_v1_blob blob_is_empty blob_data_len
+  create_commitments commitments_sha parse_info_byte
+  new_range empty_range range_is_empty range_add int_wrap ns_repeat ns_is_empty
+  new_share share_to_bytes to_bytes from_bytes square_size_of square_equals sparse_count sparse_count_after
+  (* helpers end *)
   (* base *)
   b2n n2b N.add N.mul N.div N.modulo N.compare N.of_nat N.to_nat Z.add Z.mul Z.opp Z.of_N Z.to_N Z.abs Z.compare
   bytes_eqb
